@@ -64,34 +64,9 @@ fn with_meta(s: Spec, meta: (u8, u8, u8)) -> Spec {
   s
 }
 
-/// binary leaves that are not beneath a ReplaceSource (whose positions were chosen for the text as
-/// generated) get invalid UTF-8 sequences now and then: buffer() and the lossy source() then differ
-fn with_binary(mut s: Spec, sel: &[u16]) -> Spec {
-  const BAD: &[&[u8]] = &[b"\xff", b"\x80", b"\xc3", b"\xe6\x97", b"\xf0\x9f\x98", b"\xc0\xaf", b"\xed\xa0\x80", b"\xfe\xff"];
-  fn go(s: &mut Spec, sel: &[u16], k: &mut usize) {
-    match s {
-      Spec::RawBytes(b) | Spec::RawBuf(b) => {
-        let x = sel.get(*k).copied().unwrap_or(1);
-        *k += 1;
-        if x % 2 == 0 {
-          let at = crate::gen::idx(x, b.len() + 1);
-          let bad = BAD[(x as usize / 2) % BAD.len()];
-          b.splice(at..at, bad.iter().copied());
-        }
-      }
-      Spec::Concat { children, .. } => children.iter_mut().for_each(|c| go(c, sel, k)),
-      Spec::Cached(inner) | Spec::Boxed(inner) => go(inner, sel, k),
-      _ => {}
-    }
-  }
-  let mut k = 0;
-  go(&mut s, sel, &mut k);
-  s
-}
-
 fn strategy_pairs() -> BoxedStrategy<Case> {
   prop_oneof![
-    4 => (tree(cfg()), any::<u16>(), (any::<u8>(), any::<u8>(), any::<u8>()), vec(any::<u16>(), 0..=4)).prop_map(|(x, edit, meta, bin)| Case::Edit { x: with_binary(with_meta(x, meta), &bin), edit }),
+    4 => (tree(cfg()), any::<u16>(), (any::<u8>(), any::<u8>(), any::<u8>()), vec(any::<u16>(), 0..=4)).prop_map(|(x, edit, meta, bin)| Case::Edit { x: crate::props::common::with_binary(with_meta(x, meta), &bin), edit }),
     1 => (tree(cfg()), tree(cfg())).prop_map(|(x, y)| Case::Independent { x, y }),
   ]
   .boxed()
